@@ -68,7 +68,9 @@ func (p *Address) WriteTo(w io.Writer) (n int64, err error) {
 	if p.TON != 0b101 {
 		data[0] = byte(len(p.No))
 	} else {
-		data[0] *= 2
+		// useful semi-octets of the septets these octets hold (GSM 03.40 9.1.2.5), not two per octet
+		septets := int(data[0]) * 8 / 7
+		data[0] = byte((septets*7 + 3) / 4)
 	}
 	_, err = w.Write(data)
 	return
